@@ -1048,8 +1048,9 @@ class NetworkGraph(AbstractBaseIR):
         return d
 
     def _preprocess_delay(self, delay, discretize=True):
+        # a delay that stays in time units is a float: the integer branch of the add_delay test is meant for step counts
         return int(np.round(delay / self.step_size, decimals=0)) if discretize and not self.step_size_adaptation \
-            else delay
+            else float(delay)
 
     def _bool_to_idx(self, v):
         v_idx = np.argwhere(v).squeeze()
